@@ -342,21 +342,6 @@ func fromNative(fr *frame, rv reflect.Value) value {
 	panic(unsupported("native result of kind " + rv.Kind().String()))
 }
 
-// ---- in-memory file system (fault injection is added by the C20 harness) -----------------
-
-type memFS struct {
-	files map[string]*memFile
-	seq   int
-}
-
-type memFile struct {
-	name    string
-	data    []value
-	removed bool
-}
-
-func newMemFS() *memFS { return &memFS{files: map[string]*memFile{}} }
-
 // ---- errors.Is / errors.As (the originals use reflectlite) --------------------------------
 
 func (fr *frame) errUnwrap(err iface) []iface {
